@@ -803,6 +803,9 @@ class C17(Check):
     def model_line(self, case):
         if not modelled(case):
             return {"ops": [], "fuel": 1, "unmodelled": "inheritance"}
+        import os
+        if os.environ.get("C17_LEGACY"):      # development aid: the pre-fix switches, against an unpatched tree
+            return model_line(case, {"uniqueKeys": False, "resolveUnion": False})
         return model_line(case)
 
     def compare(self, case, io, mo):
